@@ -133,6 +133,15 @@ pub struct Rig {
     pub sb: SensorHandle<bool>,
     pub sc: SensorHandle<Command>,
     pub node: Box<dyn NodeOps>,
+    /// the very References the node reads its inputs through (the caller keeps a handle, as any program
+    /// that also displays or logs the sensor does)
+    pub in_f: Reference<dyn Getter<f32, E>>,
+    pub in_q: Reference<dyn Getter<Quantity, E>>,
+    pub in_s: Reference<dyn Getter<State, E>>,
+    pub in_b: Reference<dyn Getter<bool, E>>,
+    /// header `hold_inputs`: the caller is looking at the inputs (shared borrows alive) while it updates
+    /// and reads the node
+    pub hold: bool,
 }
 
 pub fn out_to_f32(o: &Out) -> Output<f32, E> {
@@ -208,8 +217,12 @@ impl Rig {
         let ss = SensorHandle::<State>::new();
         let sb = SensorHandle::<bool>::new();
         let sc = SensorHandle::<Command>::new();
-        let df = || dyn_getter::<f32, _>(sf.sensor());
-        let dq = || dyn_getter::<Quantity, _>(sq.sensor());
+        let in_f = dyn_getter::<f32, _>(sf.sensor());
+        let in_q = dyn_getter::<Quantity, _>(sq.sensor());
+        let in_s = dyn_getter::<State, _>(ss.sensor());
+        let in_b = dyn_getter::<bool, _>(sb.sensor());
+        let df = || in_f.clone();
+        let dq = || in_q.clone();
         let node: Box<dyn NodeOps> = match kind.as_str() {
             "pid" => Box::new(NF(PIDControllerStream::new(
                 df(),
@@ -217,7 +230,7 @@ impl Rig {
                 PIDKValues::new(plan.getf("kp"), plan.getf("ki"), plan.getf("kd")),
             ))),
             "cpid" => Box::new(NCpid(CommandPID::new(
-                dyn_getter::<State, _>(ss.sensor()),
+                in_s.clone(),
                 cmd_from(init.cmd.0, init.cmd.1),
                 kvals_from(plan),
             ))),
@@ -245,7 +258,7 @@ impl Rig {
             ))),
             "q2f" => Box::new(NF(QuantityToFloat::new(dq()))),
             "freeze" => Box::new(NF(FreezeStream::<f32, _, _, E>::new(
-                dyn_getter::<bool, _>(sb.sensor()),
+                in_b.clone(),
                 df(),
             ))),
             other => panic!("harness: unknown node kind {:?}", other),
@@ -258,6 +271,11 @@ impl Rig {
             sb,
             sc,
             node,
+            in_f,
+            in_q,
+            in_s,
+            in_b,
+            hold: plan.get("hold_inputs") != 0,
         };
         rig.load_script(init);
         if init.following {
@@ -398,6 +416,11 @@ pub fn run_ops(plan: &Plan, ops: &[Op], init: &Script) -> Vec<Rec> {
             let mut ret = None;
             let mut extra = 0;
             script_step_rig(plan, &mut rig, &mut script, op);
+            let _looking = if rig.hold {
+                Some((rig.in_f.borrow(), rig.in_q.borrow(), rig.in_s.borrow(), rig.in_b.borrow()))
+            } else {
+                None
+            };
             match op.code.as_str() {
                 // SUE k: from now on the sensors' own update() fails with error k (0: works again)
                 "SUE" => SENSOR_UPDATE_ERR.with(|c| c.set(if op.arg(0) == 0 { None } else { Some(op.arg(0) as u8) })),
